@@ -12,9 +12,7 @@ import (
 func sweepCheck(prop, tier string, kinds []run.Kind, co explore.CaseOpts, onResult func(cx *explore.Ctx, q run.Query, r run.Result), fo report.FinishOpts, extra func(c *report.Collector)) int {
 	c := report.NewCollector(prop)
 	co.Tier = tier
-	cases := explore.Cases(co)
-	explore.Sweep(cases, c, explore.Deadline(tier), explore.Opts{Kinds: kinds, OnResult: onResult})
-	c.Count("cases", int64(len(cases)))
+	explore.SweepGroups(explore.Groups(co), c, explore.Deadline(tier), explore.Opts{Kinds: kinds, OnResult: onResult})
 	if extra != nil {
 		extra(c)
 	}
